@@ -4,6 +4,7 @@ spec/FoInfer.tla).  Types are the terms of FoTypeExpr as JSON arrays plus ["var"
 A generated function: name, params [names], the Folang body lines, eqs [[t1, t2], ...], ptypes [type terms of the
 parameters], res (type term of the result).
 """
+import copy
 
 INT, STR, BOOL = ["base", "int"], ["base", "string"], ["base", "bool"]
 
@@ -1030,6 +1031,28 @@ class AstFn:
         return {"name": self.name, "ast": self.ast}
 
     text = Fn.text
+
+
+class RannFn:
+    """a function with an INFORMATIVE result annotation (let f a b : T = ...): base with the result type rtype written in the source.
+    rtype is the principal result type of base with its variables instantiated (FoInfer!Principal.rinst)."""
+
+    def __init__(self, base, rtype, rtext):
+        self.base, self.name, self.params, self.rtype, self.rtext = base, base.name, base.params, rtype, rtext
+        for a in ("deps", "selfcalls", "forced"):
+            if hasattr(base, a):
+                setattr(self, a, getattr(base, a))
+
+    def spec(self):
+        sp = copy.deepcopy(self.base.spec())
+        sp["ast"]["rtype"] = self.rtype
+        if "eqs" in sp:
+            sp["eqs"].append([["var", "ret"], self.rtype])
+        return sp
+
+    def text(self, annots=None):
+        head, rest = self.base.text(annots).split(" =\n", 1)
+        return "%s : %s =\n%s" % (head, self.rtext, rest)
 
 
 # ------------------------------------------------------------------------------------------ kernels (fixed functions)
